@@ -227,9 +227,17 @@ func (i *insertOnUpdateExecutor) buildBeforeImageSQLParameters(insertStmt *ast.I
 			} else {
 				parameterMap[columnName] = append(parameterMap[col], driver.NamedValue{
 					Ordinal: i + 1,
-					Name:    columnName,
 					Value:   val,
 				})
+			}
+		}
+	}
+	// the map is keyed by the lower-cased names of the INSERT column list; the index columns are looked up by
+	// their declared names: make those spellings find the same values
+	for _, declared := range metaData.ColumnNames {
+		if values, ok := parameterMap[strings.ToLower(declared)]; ok {
+			if _, has := parameterMap[declared]; !has {
+				parameterMap[declared] = values
 			}
 		}
 	}
@@ -298,8 +306,8 @@ func (i *insertOnUpdateExecutor) buildAfterImageSQL(beforeImage *types.RecordIma
 		for name, value := range primaryValueMap {
 			if !i.beforeImageSqlPrimaryKeys[name] {
 				wherePrimaryList = append(wherePrimaryList, name+" = ? ")
+				// positional: the target driver refuses named parameters
 				primaryValues = append(primaryValues, driver.NamedValue{
-					Name:  name,
 					Value: value[j],
 				})
 			}
